@@ -617,7 +617,14 @@ func (db *DB) rollbackJournal(ctx context.Context) error {
 	defer func() { _ = journalFile.Close() }()
 
 	dbFile, err := db.os.OpenFile("ROLLBACKJOURNALDB", db.DatabasePath(), os.O_RDWR, 0o666)
-	if err != nil {
+	if os.IsNotExist(err) {
+		// The database file has been removed (e.g. interrupted drop) so there is
+		// nothing to roll back. Remove the leftover journal.
+		if err := journalFile.Close(); err != nil {
+			return err
+		}
+		return db.os.Remove("ROLLBACKJOURNAL", db.JournalPath())
+	} else if err != nil {
 		return err
 	}
 	defer func() { _ = dbFile.Close() }()
